@@ -108,6 +108,7 @@ type driver struct {
 	arrived chan *gate
 
 	jitter  atomic.Bool
+	fracMs  int64 // milliseconds past the whole second d.now (tickms)
 	bySid   map[string]*checkRun // parallel mode: session id presented -> the check in flight that presented it
 	mu      sync.Mutex
 	cur     *checkRun
@@ -149,7 +150,10 @@ func newDriver(out, tmp string) (*driver, error) {
 				time.Sleep(time.Duration(100+(n*7919)%900) * time.Microsecond)
 			}
 		}
-		return baseTime.Add(time.Duration(d.nowSec()) * time.Second)
+		d.mu.Lock()
+		frac := d.fracMs
+		d.mu.Unlock()
+		return baseTime.Add(time.Duration(d.nowSec())*time.Second + time.Duration(frac)*time.Millisecond)
 	})
 	return d, nil
 }
